@@ -294,6 +294,13 @@ func (t *twin) compareAll(nkeys int, st map[int]*kstate, when string, hist inter
 			continue
 		}
 		s := st[k]
+		if when == "after-reload" && keyClass(t.c, s) == "empty-payload" {
+			// what a *reload* does to a zero-length blob is C01's listed defect (lost when the index is replayed, kept when a
+			// fresh .ldb is reused) and does not depend on the compaction; the statement speaks about the state right
+			// after the commit, which was compared above
+			r.Count("after_reload_empty_blob_difference(recorded,not judged)", 1)
+			continue
+		}
 		class := "contents-differ"
 		if what == "readable-set" {
 			if readable(rb) {
